@@ -197,6 +197,10 @@ func NewWorld(spec WorldSpec) (*World, error) {
 		}
 	}
 	w := &World{Spec: spec, str2h: map[string]Handle{}, h2str: map[Handle]string{}, clients: map[int]*goidc.Client{}}
+	if jwtbSpecHasGrant(spec) {
+		// one provider per process, as far as the package-level anonymous jwt-bearer client goes (jwtb_anon.go)
+		jwtbResetAnonymousClient()
+	}
 	w.Stores = NewStores(spec.Flavour)
 	w.srvKeys = goidc.JSONWebKeySet{Keys: []goidc.JSONWebKey{{Key: serverKeyCache, KeyID: "srv-es256", Algorithm: "ES256", Use: "sig"}}}
 	for i, k := range keyCache {
